@@ -47,6 +47,7 @@ table (covered or not, keys in any written order): entry `i` is the weight confi
 the model says so. -/
 theorem C19_gen_prob_vector (tb : Table) : probabilities tb = tb.vectorByKey := by
   simp [probabilities, Table.vectorByKey, sub_eq_lookup, rescale, forAppend_nil]
+  try (split <;> simp_all)      -- a vector first bound to a local (`match … with | none => none | some v => some v`)
 
 def optOf : ChoiceOut → Option Nat
   | .chose i => some i
